@@ -10,9 +10,9 @@ use crate::util::*;
 use serde_json::{json, Value};
 use smoltcp::iface::{Config, Interface, Route, SocketHandle, SocketSet};
 use smoltcp::phy::Medium;
-use smoltcp::socket::udp;
+use smoltcp::socket::{icmp, raw, udp};
 use smoltcp::time::Instant;
-use smoltcp::wire::{EthernetAddress, HardwareAddress, IpAddress, IpCidr, IpEndpoint, Ipv4Address, Ipv4Cidr, Ipv6Address, Ipv6Cidr};
+use smoltcp::wire::{EthernetAddress, HardwareAddress, IpAddress, IpCidr, IpEndpoint, IpProtocol, IpVersion, Ipv4Address, Ipv4Cidr, Ipv6Address, Ipv6Cidr};
 use std::collections::HashMap;
 
 const MY_IP: [u8; 4] = [10, 0, 0, 1];
@@ -77,8 +77,12 @@ fn nd_msg(sha: [u8; 6], spa: [u8; 4], op: u16, dst_mac: [u8; 6]) -> Vec<u8> {
     }
 }
 
+const IDENT: u16 = 0x4242;
+const RAW_PROTO: u8 = 253;
+
 struct SockCfg {
     h: SocketHandle,
+    kind: u8, // 0 UDP, 1 ICMP (bound to IDENT), 2 raw (protocol RAW_PROTO)
     port: u16,
     rxm: usize,
     rxp: usize,
@@ -96,6 +100,49 @@ struct W {
 }
 
 impl W {
+    /// which socket a datagram on the wire belongs to (`sk`), its size as the socket counts it, its identity and
+    /// the position of the first octet that differs from what the application wrote
+    fn dgram(&self, v: &mut Value, ip: &IpPkt, from_me: bool) {
+        let mark = |v: &mut Value, sk: usize, size: usize, payload: &[u8], hdr_ok: bool, sport: u16, dport: u16, cs: bool| {
+            v["sk"] = json!(sk);
+            v["size"] = json!(size);
+            v["sport"] = json!(sport);
+            v["dport"] = json!(dport);
+            v["cs"] = json!(cs);
+            if payload.len() >= 4 {
+                let did = u32::from_be_bytes([payload[0], payload[1], payload[2], payload[3]]);
+                if self.sizes.contains_key(&did) {
+                    let exp = dgram_payload(did, payload.len());
+                    let pd = payload.iter().zip(exp.iter()).position(|(a, b)| a != b).map(|x| x as i64).unwrap_or(-1);
+                    v["did"] = json!(did);
+                    v["pd"] = json!(if hdr_ok { pd } else { 0 });
+                    v["osize"] = json!(self.sizes[&did]);
+                }
+            }
+        };
+        match &ip.l4 {
+            L4::Udp { sport, dport, payload, csum_ok, .. } => {
+                let mine = if from_me { *sport } else { *dport };
+                if mine == 6000 || mine == 6001 {
+                    mark(v, (mine - 6000) as usize, payload.len(), payload, true, *sport, *dport, *csum_ok);
+                }
+            }
+            L4::Icmp4 { ty, body, csum_ok, .. } | L4::Icmp6 { ty, body, csum_ok, .. } => {
+                // echo request from us / echo reply to us carrying the socket's identifier
+                let want = if from_me { if ip.ver == 4 { 8 } else { 128 } } else if ip.ver == 4 { 0 } else { 129 };
+                if *ty == want && body.len() >= 4 && u16::from_be_bytes([body[0], body[1]]) == IDENT {
+                    let seq = u16::from_be_bytes([body[2], body[3]]);
+                    let pl = &body[4..];
+                    let did_lo = if pl.len() >= 4 { u16::from_be_bytes([pl[2], pl[3]]) } else { seq };
+                    mark(v, 2, 8 + pl.len(), pl, seq == did_lo, 0, 0, *csum_ok);
+                }
+            }
+            L4::Other(p) if *p == RAW_PROTO => {
+                mark(v, 3, ip.total_len, &ip.l4_bytes, true, 0, 0, true);
+            }
+            _ => {}
+        }
+    }
     /// Independent projection of an Ethernet frame.
     fn proj(&self, f: &[u8], from_me: bool) -> Value {
         if f.len() < 14 {
@@ -135,16 +182,6 @@ impl W {
                             v["dport"] = json!(dport);
                             v["cs"] = json!(csum_ok);
                             v["size"] = json!(payload.len());
-                            if payload.len() >= 4 {
-                                let did = u32::from_be_bytes([payload[0], payload[1], payload[2], payload[3]]);
-                                if self.sizes.contains_key(&did) {
-                                    let exp = dgram_payload(did, payload.len());
-                                    let pd = payload.iter().zip(exp.iter()).position(|(a, b)| a != b).map(|x| x as i64).unwrap_or(-1);
-                                    v["did"] = json!(did);
-                                    v["pd"] = json!(pd);
-                                    v["osize"] = json!(self.sizes[&did]);
-                                }
-                            }
                         } else if let L4::Icmp4 { ty, code, csum_ok, .. } = &ip.l4 {
                             v["l4"] = json!("icmp");
                             v["ty"] = json!(ty);
@@ -153,6 +190,7 @@ impl W {
                         } else {
                             v["l4"] = json!("other");
                         }
+                        self.dgram(&mut v, &ip, from_me);
                     }
                     None => {
                         v["et"] = json!("ip4-bad");
@@ -207,16 +245,6 @@ impl W {
                         v["dport"] = json!(dport);
                         v["cs"] = json!(csum_ok);
                         v["size"] = json!(payload.len());
-                        if payload.len() >= 4 {
-                            let did = u32::from_be_bytes([payload[0], payload[1], payload[2], payload[3]]);
-                            if self.sizes.contains_key(&did) {
-                                let exp = dgram_payload(did, payload.len());
-                                let pd = payload.iter().zip(exp.iter()).position(|(a, b)| a != b).map(|x| x as i64).unwrap_or(-1);
-                                v["did"] = json!(did);
-                                v["pd"] = json!(pd);
-                                v["osize"] = json!(self.sizes[&did]);
-                            }
-                        }
                     } else if let L4::Icmp6 { ty, code, csum_ok, .. } = &ip.l4 {
                         v["l4"] = json!("icmp");
                         v["ty"] = json!(ty);
@@ -229,6 +257,7 @@ impl W {
                     } else {
                         v["l4"] = json!("other");
                     }
+                    self.dgram(&mut v, &ip, from_me);
                 } else {
                     v["et"] = json!("ip4-bad");
                 }
@@ -260,9 +289,19 @@ impl W {
             Ok(()) => {
                 let pa = self.iface.poll_at(Instant::from_millis(now), &self.sockets).map(|x| (x.total_micros() + 999).div_euclid(1000)).unwrap_or(-1);
                 let outs: Vec<Value> = out.iter().map(|o| self.proj(o, true)).collect();
-                let q: Vec<Value> = self.socks.iter().map(|s| {
-                    let so = self.sockets.get::<udp::Socket>(s.h);
-                    json!({"cs": so.can_send(), "cr": so.can_recv()})
+                let q: Vec<Value> = self.socks.iter().map(|s| match s.kind {
+                    0 => {
+                        let so = self.sockets.get::<udp::Socket>(s.h);
+                        json!({"cs": so.can_send(), "cr": so.can_recv()})
+                    }
+                    1 => {
+                        let so = self.sockets.get::<icmp::Socket>(s.h);
+                        json!({"cs": so.can_send(), "cr": so.can_recv()})
+                    }
+                    _ => {
+                        let so = self.sockets.get::<raw::Socket>(s.h);
+                        json!({"cs": so.can_send(), "cr": so.can_recv()})
+                    }
                 }).collect();
                 t.ev(json!({"ev":"poll","now":now,"rx":rxp,"out":outs,"pa":pa,"budget":budget.map(|x| x as i64).unwrap_or(-1),"rxleft":left,"exhausted":exhausted,"q":q}));
                 Some(out)
@@ -317,7 +356,28 @@ pub fn random(args: &Args) {
             s.bind(6000 + k as u16).unwrap();
             let h = sockets.add(s);
             scfg.push(json!({"port": 6000 + k, "rxm": rxm, "rxp": rxp, "txm": txm, "txp": txp}));
-            socks.push(SockCfg { h, port: 6000 + k as u16, rxm, rxp, txm, txp });
+            socks.push(SockCfg { h, kind: 0, port: 6000 + k as u16, rxm, rxp, txm, txp });
+        }
+        for k in 2..4usize {
+            let (rxm, txm) = (rng.range(1, 4) as usize, rng.range(1, 4) as usize);
+            let (rxp, txp) = (*rng.pick(&[64usize, 200, 600]), *rng.pick(&[64usize, 200, 600]));
+            let h = if k == 2 {
+                let mut s = icmp::Socket::new(
+                    icmp::PacketBuffer::new(vec![icmp::PacketMetadata::EMPTY; rxm], vec![0u8; rxp]),
+                    icmp::PacketBuffer::new(vec![icmp::PacketMetadata::EMPTY; txm], vec![0u8; txp]),
+                );
+                s.bind(icmp::Endpoint::Ident(IDENT)).unwrap();
+                sockets.add(s)
+            } else {
+                sockets.add(raw::Socket::new(
+                    Some(if v6 { IpVersion::Ipv6 } else { IpVersion::Ipv4 }),
+                    Some(IpProtocol::Unknown(RAW_PROTO)),
+                    raw::PacketBuffer::new(vec![raw::PacketMetadata::EMPTY; rxm], vec![0u8; rxp]),
+                    raw::PacketBuffer::new(vec![raw::PacketMetadata::EMPTY; txm], vec![0u8; txp]),
+                ))
+            };
+            scfg.push(json!({"port": 6000 + k, "rxm": rxm, "rxp": rxp, "txm": txm, "txp": txp}));
+            socks.push(SockCfg { h, kind: (k - 1) as u8, port: 6000 + k as u16, rxm, rxp, txm, txp });
         }
         let mut w = W { iface, dev, sockets, socks, now: 0, sizes: HashMap::new() };
         // behaviour of the virtual stations
@@ -383,8 +443,15 @@ pub fn random(args: &Args) {
             w.now = tn;
             // application sends
             if next_did <= total_dg && rng.chance(35) {
-                let k = rng.below(2) as usize;
-                let size = rng.range(4, (w.socks[k].txp as u64 + 8).min(1400)) as usize;
+                let k = rng.below(4) as usize;
+                let hdr = if v6 { 40 } else { 20 };
+                // `size` is what the socket counts: UDP payload, ICMP message, whole IP packet
+                let over = match w.socks[k].kind {
+                    0 => 0,
+                    1 => 8,
+                    _ => hdr,
+                };
+                let size = rng.range(4 + over as u64, (w.socks[k].txp as u64 + 8).min(1400).max(5 + over as u64)) as usize;
                 let last = *rng.pick(&arp_delay.keys().cloned().collect::<Vec<u8>>());
                 let dst: [u8; 4] = match rng.below(10) {
                     0 | 1 => [192, 168, 7, rng.range(1, 200) as u8],
@@ -393,15 +460,47 @@ pub fn random(args: &Args) {
                 };
                 let did = next_did;
                 w.sizes.insert(did, size);
-                let data = dgram_payload(did, size);
+                let data = dgram_payload(did, size - over);
                 let h = w.socks[k].h;
-                let r = w.sockets.get_mut::<udp::Socket>(h).send_slice(&data, IpEndpoint::new(ip_of(dst, v6), 9000 + k as u16));
-                let err = match r {
-                    Ok(()) => "none",
-                    Err(udp::SendError::BufferFull) => "full",
-                    Err(udp::SendError::Unaddressable) => "unaddressable",
+                let (err, dport) = match w.socks[k].kind {
+                    0 => {
+                        let r = w.sockets.get_mut::<udp::Socket>(h).send_slice(&data, IpEndpoint::new(ip_of(dst, v6), 9000 + k as u16));
+                        (match r {
+                            Ok(()) => "none",
+                            Err(udp::SendError::BufferFull) => "full",
+                            Err(udp::SendError::Unaddressable) => "unaddressable",
+                        }, 9000 + k as u16)
+                    }
+                    1 => {
+                        // echo request: type, code, checksum (left to the stack), identifier, sequence number = low half of the id
+                        let mut m = vec![if v6 { 128 } else { 8 }, 0, 0, 0];
+                        m.extend_from_slice(&IDENT.to_be_bytes());
+                        m.extend_from_slice(&(did as u16).to_be_bytes());
+                        m.extend_from_slice(&data);
+                        if !v6 {
+                            let c = csum(&m);
+                            m[2..4].copy_from_slice(&c.to_be_bytes());
+                        } else {
+                            let c = csum_fold(csum_add(pseudo6(&a6(MY_IP), &a6(dst), 58, m.len()), &m));
+                            m[2..4].copy_from_slice(&c.to_be_bytes());
+                        }
+                        let r = w.sockets.get_mut::<icmp::Socket>(h).send_slice(&m, ip_of(dst, v6));
+                        (match r {
+                            Ok(()) => "none",
+                            Err(icmp::SendError::BufferFull) => "full",
+                            Err(icmp::SendError::Unaddressable) => "unaddressable",
+                        }, 0)
+                    }
+                    _ => {
+                        let pkt = if v6 { ipv6_packet(a6(MY_IP), a6(dst), RAW_PROTO, 64, &data, false) } else { ipv4_packet(MY_IP, dst, RAW_PROTO, did as u16, 64, &data, false) };
+                        let r = w.sockets.get_mut::<raw::Socket>(h).send_slice(&pkt);
+                        (match r {
+                            Ok(()) => "none",
+                            Err(raw::SendError::BufferFull) => "full",
+                        }, 0)
+                    }
                 };
-                t.ev(json!({"ev":"api","now":w.now,"call":"send","sock":k,"did":did,"size":size,"dst":ipj(&dst),"dport":9000+k,"err":err}));
+                t.ev(json!({"ev":"api","now":w.now,"call":"send","sock":k,"did":did,"size":size,"dst":ipj(&dst),"dport":dport,"err":err}));
                 next_did += 1;
                 last_send = w.now;
             }
@@ -420,17 +519,11 @@ pub fn random(args: &Args) {
                     2 => disc([0xff; 6], [10, 0, 0, h], 2, MY_MAC),                                 // non-unicast hardware address
                     3 => disc(mac_of([10, 0, 0, h]), [10, 0, 0, h], 1, [0xff; 6]),                  // request for our address
                     _ => {
-                        // inbound datagram for one of the sockets (or a closed port)
+                        // inbound datagram for one of the sockets (or a closed port / foreign identifier)
                         let did = 100_000 + steps as u32;
                         let size = rng.range(4, 300) as usize;
-                        w.sizes.insert(did, size);
-                        let port = *rng.pick(&[6000u16, 6001, 6001, 6009]);
-                        let u = udp_datagram(5000 + h as u16, port, &dgram_payload(did, size));
-                        if v6 {
-                            eth_frame(MY_MAC, mac_of([10, 0, 0, h]), 0x86dd, &ipv6_packet(a6([10, 0, 0, h]), a6(MY_IP), 17, 64, &u, true))
-                        } else {
-                            eth_frame(MY_MAC, mac_of([10, 0, 0, h]), 0x0800, &ipv4_packet([10, 0, 0, h], MY_IP, 17, steps as u16, 64, &u, true))
-                        }
+                        let port = *rng.pick(&[6000u16, 6001, 6001, 6009, 6002, 6003, 6012]);
+                        inbound(&mut w, v6, h, did, size, port, steps as u16)
                     }
                 };
                 due.push(f);
@@ -439,16 +532,10 @@ pub fn random(args: &Args) {
             if rng.chance(12) {
                 for b in 0..rng.range(1, 4) {
                     let h = rng.range(2, 12) as u8;
-                    let k = rng.below(2) as usize;
+                    let k = rng.below(4) as usize;
                     let did = 200_000 + steps as u32 * 8 + b as u32;
                     let size = rng.range(4, (w.socks[k].rxp as u64 * 2 / 3).max(5)) as usize;
-                    w.sizes.insert(did, size);
-                    let u = udp_datagram(5000 + h as u16, 6000 + k as u16, &dgram_payload(did, size));
-                    if v6 {
-                        due.push(eth_frame(MY_MAC, mac_of([10, 0, 0, h]), 0x86dd, &ipv6_packet(a6([10, 0, 0, h]), a6(MY_IP), 17, 64, &u, true)));
-                    } else {
-                        due.push(eth_frame(MY_MAC, mac_of([10, 0, 0, h]), 0x0800, &ipv4_packet([10, 0, 0, h], MY_IP, 17, steps as u16, 64, &u, true)));
-                    }
+                    due.push(inbound(&mut w, v6, h, did, size, 6000 + k as u16, steps as u16));
                 }
             }
             let budget = if rng.chance(25) { Some(rng.range(0, 2) as usize) } else { None };
@@ -479,60 +566,16 @@ pub fn random(args: &Args) {
             }
             // application receives (sometimes with a buffer that is too small)
             if rng.chance(30) {
-                for k in 0..2 {
-                    let h = w.socks[k].h;
-                    let s = w.sockets.get_mut::<udp::Socket>(h);
-                    if !s.can_recv() {
-                        continue;
-                    }
+                for k in 0..4 {
                     let cap = *rng.pick(&[8usize, 64, 2048, 2048]);
-                    // look before taking: peek must show exactly what recv will hand out next
-                    if rng.chance(50) {
-                        match s.peek() {
-                            Ok((data, meta)) => {
-                                let n = data.len();
-                                let did = if n >= 4 { u32::from_be_bytes([data[0], data[1], data[2], data[3]]) } else { u32::MAX };
-                                let exp = dgram_payload(did, n);
-                                let diff = data.iter().zip(exp.iter()).position(|(a, b)| a != b).map(|x| x as i64).unwrap_or(-1);
-                                let ev = json!({"ev":"api","now":w.now,"call":"peek","sock":k,"err":"none","did":did as i64,"size":n,"diff":diff,"sport":meta.endpoint.port});
-                                t.ev(ev);
-                            }
-                            Err(_) => {}
-                        }
-                    }
-                    let s = w.sockets.get_mut::<udp::Socket>(h);
-                    let mut buf = vec![0xEEu8; cap];
-                    let r = s.recv_slice(&mut buf);
-                    match r {
-                        Ok((n, meta)) => {
-                            let did = if n >= 4 { u32::from_be_bytes([buf[0], buf[1], buf[2], buf[3]]) } else { u32::MAX };
-                            let exp = dgram_payload(did, n);
-                            let diff = buf[..n].iter().zip(exp.iter()).position(|(a, b)| a != b).map(|x| x as i64).unwrap_or(-1);
-                            t.ev(json!({"ev":"api","now":w.now,"call":"recv","sock":k,"cap":cap,"err":"none","did":did as i64,"size":n,"diff":diff,"osize":w.sizes.get(&did).cloned().map(|x| x as i64).unwrap_or(-1),
-                                        "src":meta.endpoint.addr.to_string(),"sport":meta.endpoint.port,"local":meta.local_address.map(|a| a.to_string())}));
-                        }
-                        Err(udp::RecvError::Truncated) => {
-                            let touched = buf.iter().any(|b| *b != 0xEE);
-                            t.ev(json!({"ev":"api","now":w.now,"call":"recv","sock":k,"cap":cap,"err":"truncated","did":-1,"size":0,"diff":-1,"touched":touched}));
-                        }
-                        Err(udp::RecvError::Exhausted) => {}
-                    }
+                    let peek = rng.chance(50);
+                    app_recv(&mut w, k, cap, peek, v6, &mut t);
                 }
             }
             if next_did > total_dg && w.now > last_send + horizon && pending.is_empty() {
                 // final drain of the receive queues
-                for k in 0..2 {
-                    let h = w.socks[k].h;
-                    loop {
-                        let s = w.sockets.get_mut::<udp::Socket>(h);
-                        let mut buf = vec![0u8; 2048];
-                        let Ok((n, meta)) = s.recv_slice(&mut buf) else { break };
-                        let did = if n >= 4 { u32::from_be_bytes([buf[0], buf[1], buf[2], buf[3]]) } else { u32::MAX };
-                        let exp = dgram_payload(did, n);
-                        let diff = buf[..n].iter().zip(exp.iter()).position(|(a, b)| a != b).map(|x| x as i64).unwrap_or(-1);
-                        t.ev(json!({"ev":"api","now":w.now,"call":"recv","sock":k,"cap":2048,"err":"none","did":did as i64,"size":n,"diff":diff,
-                                    "src":meta.endpoint.addr.to_string(),"sport":meta.endpoint.port}));
-                    }
+                for k in 0..4 {
+                    while app_recv(&mut w, k, 2048, false, v6, &mut t) {}
                 }
                 t.ev(json!({"ev":"end","now":w.now,"how":"quiescent","drained":true}));
                 break;
@@ -540,4 +583,113 @@ pub fn random(args: &Args) {
         }
     }
     println!("{}", json!({"runs": runs, "events": t.finish()}));
+}
+
+/// a datagram from station `h` for the socket with (virtual) port `port`: 6000 / 6001 UDP, 6002 echo reply with our
+/// identifier, 6003 raw protocol; other ports: closed UDP port (6009) or an echo reply with a foreign identifier
+fn inbound(w: &mut W, v6: bool, h: u8, did: u32, size: usize, port: u16, ident: u16) -> Vec<u8> {
+    let src = [10, 0, 0, h];
+    let hdr = if v6 { 40 } else { 20 };
+    let (proto, body, socksize) = match port {
+        6002 | 6012 => {
+            let pl = size.max(4);
+            let mut m = vec![if v6 { 129 } else { 0 }, 0, 0, 0];
+            m.extend_from_slice(&(if port == 6002 { IDENT } else if did % 2 == 0 { IDENT + 1 } else { 0x1111 }).to_be_bytes());
+            m.extend_from_slice(&(did as u16).to_be_bytes());
+            m.extend_from_slice(&dgram_payload(did, pl));
+            if !v6 {
+                let c = csum(&m);
+                m[2..4].copy_from_slice(&c.to_be_bytes());
+            }
+            let l = m.len();
+            (if v6 { 58 } else { 1 }, m, l)
+        }
+        6003 => (RAW_PROTO, dgram_payload(did, size.max(4)), hdr + size.max(4)),
+        _ => (17, udp_datagram(5000 + h as u16, port, &dgram_payload(did, size)), size),
+    };
+    w.sizes.insert(did, socksize);
+    if v6 {
+        eth_frame(MY_MAC, mac_of(src), 0x86dd, &ipv6_packet(a6(src), a6(MY_IP), proto, 64, &body, true))
+    } else {
+        eth_frame(MY_MAC, mac_of(src), 0x0800, &ipv4_packet(src, MY_IP, proto, ident, 64, &body, true))
+    }
+}
+
+/// one receive call on socket k (optionally preceded by a peek on UDP); returns false when the queue was empty
+fn app_recv(w: &mut W, k: usize, cap: usize, peek: bool, v6: bool, t: &mut Trace) -> bool {
+    let h = w.socks[k].h;
+    let kind = w.socks[k].kind;
+    let hdr = match kind {
+        0 => 0,
+        1 => 8,
+        _ => if v6 { 40 } else { 20 },
+    };
+    let now = w.now;
+    let ident = |data: &[u8]| -> (i64, i64) {
+        // (datagram id, position of the first octet that differs from what the sender wrote)
+        if data.len() < hdr + 4 {
+            return (u32::MAX as i64, 0);
+        }
+        let pl = &data[hdr..];
+        let did = u32::from_be_bytes([pl[0], pl[1], pl[2], pl[3]]);
+        let exp = dgram_payload(did, pl.len());
+        (did as i64, pl.iter().zip(exp.iter()).position(|(a, b)| a != b).map(|x| x as i64).unwrap_or(-1))
+    };
+    if kind == 0 {
+        let s = w.sockets.get_mut::<udp::Socket>(h);
+        if !s.can_recv() {
+            return false;
+        }
+        // look before taking: peek must show exactly what recv will hand out next
+        if peek {
+            if let Ok((data, meta)) = s.peek() {
+                let (did, diff) = ident(data);
+                let ev = json!({"ev":"api","now":now,"call":"peek","sock":k,"err":"none","did":did,"size":data.len(),"diff":diff,"sport":meta.endpoint.port});
+                t.ev(ev);
+            }
+        }
+    }
+    let mut buf = vec![0xEEu8; cap];
+    // (length, source port, source address, local address) or the error
+    let r: std::result::Result<(usize, u16, String, Option<String>), &'static str> = match kind {
+        0 => match w.sockets.get_mut::<udp::Socket>(h).recv_slice(&mut buf) {
+            Ok((n, meta)) => Ok((n, meta.endpoint.port, meta.endpoint.addr.to_string(), meta.local_address.map(|a| a.to_string()))),
+            Err(udp::RecvError::Truncated) => Err("truncated"),
+            Err(udp::RecvError::Exhausted) => Err("exhausted"),
+        },
+        1 => match w.sockets.get_mut::<icmp::Socket>(h).recv_slice(&mut buf) {
+            Ok((n, addr)) => Ok((n, 0, addr.to_string(), None)),
+            Err(icmp::RecvError::Truncated) => Err("truncated"),
+            Err(icmp::RecvError::Exhausted) => Err("exhausted"),
+        },
+        _ => match w.sockets.get_mut::<raw::Socket>(h).recv_slice(&mut buf) {
+            Ok(n) => Ok((n, 0, String::new(), None)),
+            Err(raw::RecvError::Truncated) => Err("truncated"),
+            Err(raw::RecvError::Exhausted) => Err("exhausted"),
+        },
+    };
+    match r {
+        Ok((n, sport, src, local)) => {
+            let (did, diff) = ident(&buf[..n]);
+            // the source address as the abstract tuple, from the socket's metadata (UDP, ICMP) or the packet itself (raw)
+            let srct: Value = if kind == 2 {
+                if v6 && n >= 40 { ipj(&buf[8..24]) } else if !v6 && n >= 20 { ipj(&buf[12..16]) } else { json!([]) }
+            } else {
+                match src.parse::<std::net::IpAddr>() {
+                    Ok(std::net::IpAddr::V4(a)) => ipj(&a.octets()),
+                    Ok(std::net::IpAddr::V6(a)) => ipj(&a.octets()),
+                    Err(_) => json!([]),
+                }
+            };
+            t.ev(json!({"ev":"api","now":now,"call":"recv","sock":k,"cap":cap,"err":"none","did":did,"size":n,"diff":diff,"osize":w.sizes.get(&(did as u32)).cloned().map(|x| x as i64).unwrap_or(-1),
+                        "src":src,"srct":srct,"sport":sport,"local":local.unwrap_or_default()}));
+            true
+        }
+        Err("truncated") => {
+            let touched = buf.iter().any(|b| *b != 0xEE);
+            t.ev(json!({"ev":"api","now":now,"call":"recv","sock":k,"cap":cap,"err":"truncated","did":-1,"size":0,"diff":-1,"touched":touched}));
+            true
+        }
+        Err(_) => false,
+    }
 }
